@@ -209,6 +209,26 @@ def run(ctx):
             events.append({"kind": "est", "finite": False})
         meta.append(("est", (a, b), sps, "long-record"))
         ctx.case(("est-long", it))
+    # eyes that are not centred in the window (the waveform delayed by a fraction of a slot) in very small and very large units: "any alpha > 0"
+    for it, (sps, delay16, alphas) in enumerate([(16, 5, (4e-9, 1e-12, 1e6)), (16, 12, (1e-9, 3e-15, 1e9)), (32, 3, (2.5e-10, 1e-6, 1e12)), (8, 6, (7e-9, 1e-13, 1e3))][:4 if T else 3]):
+        BAND[0], RESAMP[0] = "bessel", 128
+        base, nz = synth(sps, "random", 256, 2500 + it, 0.02)
+        y = np.roll(0.1 + base + nz, delay16 * sps // 16)
+        e = estimate(y, 300 + it)
+        if not finite(e):
+            events.append({"kind": "est", "finite": False})
+            meta.append(("est", (0.1, 1.1), sps, "delayed"))
+            continue
+        for alpha in alphas:
+            e2 = estimate(alpha * y, 300 + it)
+            if not finite(e2):
+                events.append({"kind": "equiv", "finite": False})
+            else:
+                events.append({"kind": "equiv", "finite": True, "dmu0": ppm(e2.mu0 / alpha - e.mu0), "dmu1": ppm(e2.mu1 / alpha - e.mu1),
+                               "ds0": ppm(e2.s0 / alpha - e.s0), "ds1": ppm(e2.s1 / alpha - e.s1), "dthr": ppm(e2.threshold / alpha - e.threshold),
+                               "dtl": ppm(e2.t_left - e.t_left), "dtr": ppm(e2.t_right - e.t_right), "dto": ppm(e2.t_opt - e.t_opt), "same_i": bool(e2.i == e.i)})
+            meta.append(("equiv", (0.1, 1.1), alpha, "delayed %d/16" % delay16))
+            ctx.case(("equiv-delayed", sps, delay16, int(math.floor(math.log10(alpha)))))
     gv.clean()
     ctx.assumptions.append("KMeans/KDE are not modelled: the statement's bands and the equivariance are monitored on recorded runs under fixed numpy seeds")
     for idx, clause in ctx.validate("EyeTrace", events, note="eye estimates"):
